@@ -49,7 +49,7 @@ class Check(Operator):
         if imbalance_element is not None:
             operand_identifiers = validation_element.get_identifiers_names()
             imbalance_identifiers = imbalance_element.get_identifiers_names()
-            if operand_identifiers != imbalance_identifiers:
+            if set(operand_identifiers) != set(imbalance_identifiers):
                 raise Exception(
                     "The validation and imbalance operands must have the same identifiers"
                 )
